@@ -212,6 +212,28 @@ func C17(e *core.Env) int {
 		r.Shuffle(len(runs), func(i, j int) { runs[i], runs[j] = runs[j], runs[i] })
 		runs = runs[:maxRuns]
 	}
+	// systematic part (independent of the random stage draws above): in the first scenarios the FIRST converter
+	// fails at each stage in turn while all later ones are healthy
+	{
+		r2 := rand.New(rand.NewSource(e.Seed*7 + 171))
+		for si := 0; si < tierN(e, 2, 8); si++ {
+			npkg := 2 + si%2
+			base := c17Scenario{name: fmt.Sprintf("t%03d", si), npkg: npkg}
+			for k := 0; k < 3; k++ {
+				base.convs = append(base.convs, c17Conv{pkg: k % npkg, name: fmt.Sprintf("C%c", 'A'+k), out: outs[r2.Intn(len(outs))]})
+			}
+			for xi, st := range stages {
+				for _, k := range []int{0, 1} {
+					sc := base
+					sc.name = fmt.Sprintf("t%03dx%02d%d", si, xi, k)
+					sc.convs = append([]c17Conv{}, base.convs...)
+					sc.convs[k].fault = st
+					sc.prior = priors[(si+xi+k)%len(priors)]
+					runs = append(runs, run{scen: sc, subset: []int{k}, label: sc.convs[k].name + ":" + st})
+				}
+			}
+		}
+	}
 	type result struct {
 		viols []*core.Viol
 		nt    string
@@ -421,6 +443,9 @@ func c17Argv(e *core.Env, rep *core.Report, bin, root string) {
 		{[]string{"gen", "-g"}, 1}, {[]string{"gen", "-cwd"}, 1}, {[]string{"generate", "./p"}, 1}, {[]string{"gen", "-build-tags"}, 1},
 		{[]string{"gen", "./nonexistent"}, 1}, {[]string{"gen", "-g", "bogusSetting", "./p"}, 1}, {[]string{"gen", "-cwd", "/nonexistent-dir", "./p"}, 1},
 		{[]string{"gen", "-h", "./p"}, 0}, {[]string{"help", "gen", "./p"}, 0},
+		// flags without any pattern: a usage error, not "generate for the current directory"
+		{[]string{"gen", "-g", "ignoreMissing no"}, 1}, {[]string{"gen", "-cwd", "p"}, 1}, {[]string{"gen", "--"}, 1}, {[]string{"gen", "-build-tags", "x"}, 1},
+		{[]string{"gen", "-cwd", "p", "-g", "skipCopySameType"}, 1}, {[]string{"gen", "-output-constraint", "x", "-cwd", "p"}, 1},
 	}
 	for i, v := range vecs {
 		dir := filepath.Join(root, fmt.Sprintf("argv%02d", i))
